@@ -11,15 +11,20 @@
 //! scorer assigns at the operation's `now` and sends them as exact integers (unit 2^-149).
 //!
 //! The spec oracle (independent of the model) checks the implementation's own behaviour:
-//!  C05: a handed-out path satisfies the real policy predicate, has the requested endpoints, was
-//!       delivered by a fetch of this history, has metadata when the policy needs metadata; nothing is
-//!       handed out while no fetched path is allowed; the cache holds only allowed paths;
+//!  C05: 0..3 policies (ACL, hop pattern, arbitrary predicate) are attached with the production
+//!       `PathStrategy::add_policy`; the harness evaluates them one by one with the policy objects (never through
+//!       `PathStrategy::predicate`): every cached path, the active slot and every handed-out path is accepted by
+//!       EVERY attached policy, has the requested endpoints, was delivered by a fetch of this history, has
+//!       metadata when a policy needs metadata; nothing is handed out while no fetched path is allowed by all;
+//!       `PathStrategy::predicate` agrees with the conjunction on every fetched path;
 //!  C06: a handed-out path is not expired at `now`; no panic; after a fetch a sender gets a path whenever
 //!       a cached path is valid; cache / issue cache / issue FIFO sizes within the configuration; next
 //!       refetch within [now+min_refetch_delay, now+max(refetch_interval, backoff max)]; backoff within
 //!       the ideal range;
 //!  C07: steer-away on delivery of an issue hitting the active path, swap rule (no switch unless the score
-//!       gap exceeds the threshold or the active path must go), recovery after 20 half-lives, unrelated
+//!       gap exceeds the threshold or the active path must go), no return (a path that becomes active does not
+//!       cross an interface whose documented penalty is still fresh while a never-reported valid cached path
+//!       avoids it - also for paths fetched after a report / re-report), recovery after 20 half-lives, unrelated
 //!       reports change nothing, `matches_path` vs an independent hop-level spec.
 use std::{
     collections::HashSet,
@@ -35,6 +40,7 @@ use scion_stack::{
         fetcher::traits::{PathFetchError, PathFetcher},
         manager::verif::{VerifCacheEntry, VerifConfig, VerifFetchError, VerifPathSet, manager_issue_sizes},
         policy::PathPolicy,
+        PathStrategy,
     },
     stack::{ScionSocketSendError, verif_send::managed_udp_socket},
 };
@@ -45,7 +51,7 @@ use sciparse::{
     path::{
         ScionPath,
         metadata::PathMetadata,
-        policy::{acl::AclPolicy, hop_pattern::HopPatternPolicy, types::PathPolicyHop},
+        policy::{PathPolicy as SciPathPolicy, acl::AclPolicy, hop_pattern::HopPatternPolicy, types::PathPolicyHop},
     },
     payload::scmp::model::{
         ScmpErrorMessage, ScmpExternalInterfaceDown, ScmpInternalConnectivityDown, ScmpPacketTooBig,
@@ -146,7 +152,11 @@ struct CfgSpec {
 struct Hist {
     kind: String,
     cfg: CfgSpec,
+    /// the policy attached first (`None`: nothing attached by this field)
     pol: PolSpec,
+    /// policies attached after `pol`, in attachment order (`PathStrategy::add_policy` once per entry)
+    #[serde(default, skip_serializing_if = "Vec::is_empty")]
+    more: Vec<PolSpec>,
     routes: Vec<Route>,
     t0: u64,
     ops: Vec<OpSpec>,
@@ -215,7 +225,7 @@ fn fp_exp(p: &ScionPath) -> String {
 }
 
 /// path token of the driver protocol
-fn path_token(p: &ScionPath, allowed: bool) -> String {
+fn path_token(p: &ScionPath, verdicts: &[bool]) -> String {
     let ifs = match p.metadata().and_then(|m| m.interfaces.as_ref()) {
         None => "n".to_string(),
         Some(v) if v.is_empty() => "e".to_string(),
@@ -231,7 +241,7 @@ fn path_token(p: &ScionPath, allowed: bool) -> String {
         ifs,
         on(p.dp_path().first_egress_interface()),
         on(p.dp_path().last_ingress_interface()),
-        if allowed { 1 } else { 0 }
+        if verdicts.is_empty() { "-".to_string() } else { verdicts.iter().map(|v| if *v { '1' } else { '0' }).collect::<String>() }
     )
 }
 
@@ -374,6 +384,7 @@ struct Outcome {
     handouts: u64,
     swaps: u64,
     steer_checked: u64,
+    return_checked: u64,
     nontrivial: bool,
     last_req: String,
 }
@@ -429,18 +440,77 @@ fn valid_at(expiry: Option<u32>, now: u64, thr_ns: u64) -> bool {
     e > now && e - now > thr_ns
 }
 
-/// the real policy objects of a history (`None`: the policy text does not parse)
-fn build_policies(h: &Hist) -> Option<Vec<Arc<dyn PathPolicy>>> {
-    let all_routes: Vec<ScionPath> = h.routes.iter().enumerate().map(|(i, r)| build_path(r, &PSpec { route: i, expiry: 4_000_000, meta: 0 })).collect();
-    Some(match &h.pol {
-        PolSpec::None => vec![],
-        PolSpec::Mask(m) => {
-            let allowed = all_routes.iter().enumerate().filter(|(i, _)| m >> i & 1 == 1).map(|(_, p)| path_fp(p)).collect();
-            vec![Arc::new(MaskPolicy { allowed })]
+/// the policies a history attaches, in attachment order
+fn attached(h: &Hist) -> Vec<&PolSpec> {
+    std::iter::once(&h.pol).chain(h.more.iter()).filter(|p| !matches!(p, PolSpec::None)).collect()
+}
+
+fn mask_set(h: &Hist, m: u32) -> HashSet<u64> {
+    h.routes.iter().enumerate().filter(|(i, _)| *i < 32 && m >> i & 1 == 1).map(|(i, r)| path_fp(&build_path(r, &PSpec { route: i, expiry: 4_000_000, meta: 0 }))).collect()
+}
+
+/// The strategy of a history, built the way the code under test builds it: one `PathStrategy::add_policy`
+/// (what `SocketConfig::with_path_policy` calls) per attached policy, in order.  `None`: a policy text does
+/// not parse.
+fn build_strategy(h: &Hist) -> Option<PathStrategy> {
+    let mut st = PathStrategy::default();
+    for p in attached(h) {
+        match p {
+            PolSpec::None => {}
+            PolSpec::Mask(m) => st.add_policy(MaskPolicy { allowed: mask_set(h, *m) }),
+            PolSpec::Acl(s) => st.add_policy(AclPolicy::parse(s).ok()?),
+            PolSpec::Pattern(s) => st.add_policy(HopPatternPolicy::parse(s).ok()?),
         }
-        PolSpec::Acl(s) => vec![Arc::new(AclPolicy::parse(s).ok()?)],
-        PolSpec::Pattern(s) => vec![Arc::new(HopPatternPolicy::parse(s).ok()?)],
-    })
+    }
+    Some(st)
+}
+
+/// The harness's own evaluation of the attached policies, ONE BY ONE (never through `PathStrategy`): the spec
+/// oracle requires every policy of the list to accept a path; the verdict vector is also what the model gets.
+enum PolEval {
+    Mask(HashSet<u64>),
+    Acl(AclPolicy),
+    Pattern(HopPatternPolicy),
+}
+impl PolEval {
+    fn of(h: &Hist) -> Option<Vec<PolEval>> {
+        attached(h)
+            .into_iter()
+            .map(|p| {
+                Some(match p {
+                    PolSpec::None => return None,
+                    PolSpec::Mask(m) => PolEval::Mask(mask_set(h, *m)),
+                    PolSpec::Acl(s) => PolEval::Acl(AclPolicy::parse(s).ok()?),
+                    PolSpec::Pattern(s) => PolEval::Pattern(HopPatternPolicy::parse(s).ok()?),
+                })
+            })
+            .collect()
+    }
+    /// a policy that cannot be evaluated on the path (no metadata) rejects it (property text)
+    fn accepts(&self, p: &ScionPath) -> bool {
+        match self {
+            PolEval::Mask(s) => s.contains(&path_fp(p)),
+            PolEval::Acl(a) => SciPathPolicy::path_allowed(a, p).unwrap_or(false),
+            PolEval::Pattern(a) => SciPathPolicy::path_allowed(a, p).unwrap_or(false),
+        }
+    }
+    fn name(&self) -> &'static str {
+        match self {
+            PolEval::Mask(_) => "predicate",
+            PolEval::Acl(_) => "acl",
+            PolEval::Pattern(_) => "hop-pattern",
+        }
+    }
+}
+fn verdicts(pe: &[PolEval], p: &ScionPath) -> Vec<bool> {
+    pe.iter().map(|e| e.accepts(p)).collect()
+}
+fn all_accept(pe: &[PolEval], p: &ScionPath) -> bool {
+    pe.iter().all(|e| e.accepts(p))
+}
+/// "#1 (acl)": the first attached policy that rejects the path
+fn rejecting(pe: &[PolEval], p: &ScionPath) -> String {
+    pe.iter().enumerate().find(|(_, e)| !e.accepts(p)).map(|(i, e)| format!("attached policy #{} of {} ({})", i + 1, pe.len(), e.name())).unwrap_or_default()
 }
 
 fn run_history(h: &Hist, lean: &mut Lean, prop: &str) -> Outcome {
@@ -486,8 +556,14 @@ fn run_history(h: &Hist, lean: &mut Lean, prop: &str) -> Outcome {
     }
 
     // ---- real objects ---------------------------------------------------------------------------
-    let Some(policies) = build_policies(h) else { return out };
-    let needs_meta = matches!(h.pol, PolSpec::Acl(_) | PolSpec::Pattern(_));
+    let (Some(strategy), Some(pe)) = (build_strategy(h), PolEval::of(h)) else { return out };
+    // the policy list as the production `add_policy` calls left it goes into the manager's strategy
+    let policies: Vec<Arc<dyn PathPolicy>> = strategy.policies.clone();
+    if policies.len() != pe.len() {
+        out.spec.push(("C05:strategy-predicate".into(), format!("{} policies were attached with add_policy but the strategy holds {}", pe.len(), policies.len())));
+    }
+    out.labels.push(format!("policies attached: {}", pe.len()));
+    let needs_meta = pe.iter().any(|e| matches!(e, PolEval::Acl(_) | PolEval::Pattern(_)));
     let script = Arc::new(Mutex::new(Script { next: None, calls: 0, bad_pair: false }));
     let vs = match catch(|| VerifPathSet::new(src_ia(), dst_ia(), vcfg, ScriptFetcher(script.clone()), policies, st(h.t0))) {
         Ok(v) => v,
@@ -506,7 +582,7 @@ fn run_history(h: &Hist, lean: &mut Lean, prop: &str) -> Outcome {
                 if p.src_ia() != src_ia() || p.dst_ia() != src_ia() {
                     out.spec.push(("C05:handout-endpoints".into(), "path(src, src) returned a path that does not stay in the source AS".into()));
                 }
-                out.labels.push(format!("path(src,src): local path, policy {}", if l.vs.predicate(&p) { "accepts it" } else { "rejects it (not consulted: AS-internal traffic uses no inter-AS path)" }));
+                out.labels.push(format!("path(src,src): local path, policy {}", if all_accept(&pe, &p) { "accepts it" } else { "rejects it (not consulted: AS-internal traffic uses no inter-AS path)" }));
             }
             Ok(other) => out.labels.push(format!("path(src,src): {}", if other.is_none() { "pending" } else { "error" })),
             Err(m) => out.spec.push(("C06:panic:send".into(), format!("path(src, src) panicked: {m}"))),
@@ -532,7 +608,10 @@ fn run_history(h: &Hist, lean: &mut Lean, prop: &str) -> Outcome {
             break;
         }
         out.ops_run += 1;
+        let active_before_op = l.vs.active();
         let mut spec: Vec<(String, String)> = vec![];
+        // findings about the strategy glue itself: reported after the findings about cached / handed-out paths
+        let mut glue: Vec<(String, String)> = vec![];
         let (imp, req): (String, String) = match op {
             // ============================================================== maintain
             OpSpec::Maintain { now, resp } => {
@@ -544,12 +623,21 @@ fn run_history(h: &Hist, lean: &mut Lean, prop: &str) -> Outcome {
                     RespSpec::Ok(ps) => ps.iter().filter(|p| p.route < h.routes.len()).map(|p| build_path(&h.routes[p.route], p)).collect(),
                     _ => vec![],
                 };
-                let flags: Vec<bool> = paths.iter().map(|p| l.vs.predicate(p)).collect();
+                let vds: Vec<Vec<bool>> = paths.iter().map(|p| verdicts(&pe, p)).collect();
+                let flags: Vec<bool> = vds.iter().map(|v| v.iter().all(|b| *b)).collect();
+                // `PathStrategy::predicate` ("true if the path is accepted by all policies"): the manager's own
+                // strategy and the one built with add_policy above, on every fetched path
+                for (p, a) in paths.iter().zip(&flags) {
+                    let (m, s) = (l.vs.predicate(p), strategy.predicate(p));
+                    if m != *a || s != *a {
+                        glue.push(("C05:strategy-predicate".into(), format!("PathStrategy::predicate says {} for path {} but the attached policies evaluated one by one say {:?} ({} policies attached)", if m != *a { m } else { s }, fp_exp(p), verdicts(&pe, p), pe.len())));
+                    }
+                }
                 let sc0 = score_map(&pre_cache, &[], &mut spec);
                 // only policy-conforming fetched paths that are not yet expired refresh cached copies
                 let live: Vec<ScionPath> = paths.iter().filter(|p| p.expiration().unwrap_or(0) as u64 * NS > now).cloned().collect();
                 let c1 = l.vs.cache_after_fetch(t, &live);
-                let extra: Vec<(u64, u32)> = live.iter().filter(|p| l.vs.predicate(p)).map(|p| (path_fp(p), l.vs.candidate_score_bits(p, t))).filter(|(fp, _)| !c1.iter().any(|e| fp_u64(&e.fingerprint) == *fp)).collect();
+                let extra: Vec<(u64, u32)> = live.iter().filter(|p| all_accept(&pe, p)).map(|p| (path_fp(p), l.vs.candidate_score_bits(p, t))).filter(|(fp, _)| !c1.iter().any(|e| fp_u64(&e.fingerprint) == *fp)).collect();
                 // duplicates of one fingerprint in a fetch: the last one wins (HashMap collect)
                 let mut extra_d: Vec<(u64, u32)> = vec![];
                 for e in extra.into_iter().rev() {
@@ -567,7 +655,7 @@ fn run_history(h: &Hist, lean: &mut Lean, prop: &str) -> Outcome {
                 let r = catch(|| rt.block_on(l.vs.step_maintain(t)));
                 let fetched = l.script.lock().unwrap().calls > calls_before;
                 let resp_tok = match resp {
-                    RespSpec::Ok(_) => format!("ok {}", if paths.is_empty() { "-".to_string() } else { paths.iter().zip(&flags).map(|(p, a)| path_token(p, *a)).collect::<Vec<_>>().join(";") }),
+                    RespSpec::Ok(_) => format!("ok {}", if paths.is_empty() { "-".to_string() } else { paths.iter().zip(&vds).map(|(p, v)| path_token(p, v)).collect::<Vec<_>>().join(";") }),
                     RespSpec::ErrNoPaths => "enp".into(),
                     RespSpec::ErrOther => "eot".into(),
                 };
@@ -578,10 +666,12 @@ fn run_history(h: &Hist, lean: &mut Lean, prop: &str) -> Outcome {
                         out.labels.push("maintain panic".into());
                         exited = true;
                         out.spec.extend(spec);
-                        let mo = lean.ask(&format!("maintain {now} {resp_tok} {sc0} {sc1} - 0"));
-                        let bad = mo.contains(" bad=1 ");
-                        if lean.differs(if bad { "panic" } else { &mo }, "panic") && out.disagree.is_none() {
-                            out.disagree = Some((idx, "panic".into(), mo));
+                        if out.disagree.is_none() {
+                            let mo = lean.ask(&format!("maintain {now} {resp_tok} {sc0} {sc1} - 0"));
+                            let bad = mo.contains(" bad=1 ");
+                            if lean.differs(if bad { "panic" } else { &mo }, "panic") {
+                                out.disagree = Some((idx, "panic".into(), mo));
+                            }
                         }
                         continue;
                     }
@@ -799,8 +889,8 @@ fn run_history(h: &Hist, lean: &mut Lean, prop: &str) -> Outcome {
                 // ---- oracle: C05 / C06 on what was handed out -----------------------------------
                 for hp in &handed {
                     out.handouts += 1;
-                    if !l.vs.predicate(hp) {
-                        spec.push(("C05:handout-policy".into(), format!("handed-out path {} violates the policy", fp_exp(hp))));
+                    if !all_accept(&pe, hp) {
+                        spec.push(("C05:handout-policy".into(), format!("handed-out path {} is rejected by {}", fp_exp(hp), rejecting(&pe, hp))));
                     }
                     if hp.src_ia() != src_ia() || hp.dst_ia() != dst_ia() {
                         spec.push(("C05:handout-endpoints".into(), "handed-out path does not connect the requested pair".into()));
@@ -832,14 +922,17 @@ fn run_history(h: &Hist, lean: &mut Lean, prop: &str) -> Outcome {
             };
             let c = l.vs.cache(st(now), false);
             for e in &c {
-                if !l.vs.predicate(&e.path) {
-                    spec.push(("C05:cache-policy".into(), format!("cached path {} violates the policy", fp_u64(&e.fingerprint))));
+                if !all_accept(&pe, &e.path) {
+                    spec.push(("C05:cache-policy".into(), format!("cached path {} is rejected by {}", fp_u64(&e.fingerprint), rejecting(&pe, &e.path))));
                 }
                 if !delivered.iter().any(|d| *d == e.path) {
                     spec.push(("C05:cache-provenance".into(), "cached path was never returned by a fetch".into()));
                 }
             }
             if let Some((ap, fp)) = l.vs.active() {
+                if !all_accept(&pe, &ap) {
+                    spec.push(("C05:active-policy".into(), format!("the active path {} is rejected by {}", fp_exp(&ap), rejecting(&pe, &ap))));
+                }
                 if !c.iter().any(|e| e.fingerprint == fp && e.path == ap) {
                     spec.push(("C05:active-not-cached".into(), "the active slot holds a path that is not in the cache".into()));
                 }
@@ -853,6 +946,20 @@ fn run_history(h: &Hist, lean: &mut Lean, prop: &str) -> Outcome {
             }
             if ifo > h.cfg.issue_cache {
                 spec.push(("C06:issue-fifo-bound".into(), format!("{ifo} issue FIFO entries > issue_cache_size {}", h.cfg.issue_cache)));
+            }
+            // no return: a path that becomes the active one (first activation or switch) must not cross an interface
+            // whose documented penalty is still fresh while a valid, never-reported cached path avoids it
+            if matches!(op, OpSpec::Maintain { .. } | OpSpec::Deliver { .. }) {
+                if let Some((ap, afp)) = l.vs.active() {
+                    if active_before_op.as_ref().map(|p| p.1) != Some(afp) {
+                        out.return_checked += 1;
+                        match no_return(&ap, &c, now, thr_ns, &h.cfg, &h.ops[..=idx], &pend, &mut spec) {
+                            None => {}
+                            Some(0) => out.labels.push("new active path crosses a reported interface, no clean alternative cached".into()),
+                            Some(_) => out.labels.push("new active path crosses a reported interface, clean alternative cached: penalty compared".into()),
+                        }
+                    }
+                }
             }
             // recovery: no matching issue for 20 reliability half-lives ⇒ the penalty is gone
             if matches!(op, OpSpec::Maintain { .. } | OpSpec::Deliver { .. }) {
@@ -875,6 +982,13 @@ fn run_history(h: &Hist, lean: &mut Lean, prop: &str) -> Outcome {
         }
         let _ = prop;
         out.spec.extend(spec);
+        out.spec.extend(glue);
+        // once model and implementation have parted the model is no longer asked (its state is another one); the
+        // remaining operations still run on the implementation under the spec oracle, so that a defect that shows
+        // first as a disagreement is also followed to the hand-out
+        if out.disagree.is_some() {
+            continue;
+        }
         let mo = lean.ask(&req);
         if std::env::var("HX_DEBUG").is_ok() {
             eprintln!("REQ   {req}\nIMPL  {imp}\nMODEL {mo}");
@@ -884,10 +998,10 @@ fn run_history(h: &Hist, lean: &mut Lean, prop: &str) -> Outcome {
         if lean.differs(&mo, &imp) && out.disagree.is_none() {
             out.last_req = req.clone();
             out.disagree = Some((idx, imp, mo));
-            break;
         }
     }
     out.nontrivial = out.fetches > 0 && (out.handouts > 0 || out.swaps > 0 || out.steer_checked > 0);
+    let _ = out.return_checked;
     drop(l);
     out
 }
@@ -938,6 +1052,85 @@ fn spec_residual(p: &ScionPath, now: u64, issue_log: &[(KindSpec, u64)], ops: &[
         }
     }
     r.min(1.0)
+}
+
+/// documented half-life of a cached issue ("With 30s half-life, it takes ~3 mins to recover", issues.rs): the penalty
+/// a path gets when it is fetched after the report
+const SPEC_ISSUE_HALF_LIFE_S: f64 = 30.0;
+
+fn op_time(o: &OpSpec) -> u64 {
+    match o {
+        OpSpec::Maintain { now, .. } | OpSpec::Deliver { now } | OpSpec::Send { now } => *now,
+        OpSpec::Report { ts, .. } => *ts,
+    }
+}
+
+/// "Traffic does not return to the failed interface while the penalty is fresh" (property text), with the
+/// documented magnitudes only: path `a` has just become the active path at `now` (`ops` = the history up to and
+/// including this operation).  Lower bound of the penalty `a` must still carry: for a failure report on an
+/// interface of `a` that is certainly not a duplicate (no similar report in the deduplication window before
+/// it - in particular a re-report after the window), magnitude x 2^(-elapsed / 30 s), the faster of the two
+/// documented decays (cached issue 30 s, reliability 90 s), over the longest time that can have passed since the
+/// report.  A valid cached path that no report of the history ever matched scores its documented length score.  If
+/// that beats the length score of `a` minus the lower bound by a clear margin, `a` must not have been chosen.
+/// Returns the number of clean alternatives the new active path was compared with (`None`: no report on it counts).
+fn no_return(a: &ScionPath, cache: &[VerifCacheEntry], now: u64, thr_ns: u64, cfg: &CfgSpec, ops: &[OpSpec], pend: &[KindSpec], spec: &mut Vec<(String, String)>) -> Option<usize> {
+    const EPS: f64 = 2e-3;
+    let base_a = spec_base(a)?;
+    let targeted = |k: &KindSpec| spec_penalty(k) > 0.0;
+    // the bounded issue cache has not evicted anything yet
+    if ops.iter().filter(|o| matches!(o, OpSpec::Report { kind, .. } if targeted(kind))).count() > cfg.issue_cache {
+        return None;
+    }
+    // a report on `a` that this path set has not ingested yet (still queued, no refetch since) cannot have acted
+    if pend.iter().any(|k| kind_matches(k, a)) {
+        return None;
+    }
+    let dedup = cfg.dedup_ms * 1_000_000;
+    let mut fresh: Option<(f64, String, f64)> = None;
+    for (i, o) in ops.iter().enumerate() {
+        let OpSpec::Report { kind, ts } = o else { continue };
+        if !targeted(kind) || !kind_applies(kind) || !kind_matches(kind, a) {
+            continue;
+        }
+        let similar_before = ops[..i].iter().any(|o2| matches!(o2, OpSpec::Report { kind: k2, ts: t2 } if kind_token(k2) == kind_token(kind) && *t2 + dedup > *ts));
+        if similar_before {
+            continue;
+        }
+        let later = || ops[i + 1..].iter().map(op_time);
+        let t_lo = later().fold(*ts, u64::min);
+        let t_hi = later().fold((*ts).max(now), u64::max);
+        let elapsed = (t_hi - t_lo) as f64 / 1e9;
+        let r = spec_penalty(kind) * (2f64).powf(-elapsed / SPEC_ISSUE_HALF_LIFE_S);
+        if fresh.as_ref().map(|f| r > f.0).unwrap_or(true) {
+            fresh = Some((r, kind_token(kind), elapsed));
+        }
+    }
+    let (r, what, elapsed) = fresh?;
+    let a_fp = path_fp(a);
+    let mut compared = 0;
+    for q in cache {
+        if fp_u64(&q.fingerprint) == a_fp || !valid_at(q.expiry, now, thr_ns) {
+            continue;
+        }
+        if ops.iter().any(|o| matches!(o, OpSpec::Report { kind, .. } if kind_matches(kind, &q.path))) {
+            continue;
+        }
+        let Some(base_q) = spec_base(&q.path) else { continue };
+        compared += 1;
+        if r > base_a - base_q + 2.0 * EPS {
+            spec.push((
+                "C07:no-return:fresh-penalty".into(),
+                format!(
+                    "path {} became the active path at now={now} although it crosses the interface of failure report `{what}` made at most {elapsed} s earlier (documented penalty still at least {r:.4}, length score {base_a:.4}) while the valid cached path {} (length score {base_q:.4}) avoids it and was never reported: traffic returns to / starts on the failed interface while the penalty is fresh",
+                    a_fp,
+                    fp_u64(&q.fingerprint)
+                ),
+            ));
+            return Some(compared);
+        }
+    }
+    Some(compared)
 }
 
 enum NonSteer {
@@ -1065,12 +1258,12 @@ fn gen_policy(rng: &mut Rng, routes: &[Route]) -> PolSpec {
         6 | 7 => {
             // deny one transit AS (or the first-hop interface), allow the rest
             let r = rng.pick(routes);
-            let deny = if let Some((asn, _, _)) = r.transit.first() { format!("- 1-{:x}", asn) } else { format!("- 1-{:x}#{}", SRC_ASN, r.e0) };
+            let deny = if let Some((asn, _, _)) = r.transit.first() { format!("- 1-{}", asn) } else { format!("- 1-{}#{}", SRC_ASN, r.e0) };
             PolSpec::Acl(format!("{deny}, +"))
         }
         _ => {
             let r = rng.pick(routes);
-            if let Some((asn, _, _)) = r.transit.first() { PolSpec::Pattern(format!("0* 1-{:x} 0*", asn)) } else { PolSpec::Pattern("0 0".into()) }
+            if let Some((asn, _, _)) = r.transit.first() { PolSpec::Pattern(format!("0* 1-{} 0*", asn)) } else { PolSpec::Pattern("0 0".into()) }
         }
     }
 }
@@ -1155,9 +1348,45 @@ fn gen_resp(rng: &mut Rng, routes: &[Route], now: u64, thr_ns: u64) -> RespSpec 
 fn gen_history(rng: &mut Rng, prop: &str, max_ops: usize) -> Hist {
     let routes = gen_routes(rng);
     let cfg = gen_cfg(rng, prop);
-    let pol = gen_policy(rng, &routes);
+    let mut pol = gen_policy(rng, &routes);
     let t0 = 1_000_000 * NS + rng.below(1000) * 1_000_000;
-    let mut h = Hist { kind: "random".into(), cfg, pol, routes, t0, ops: vec![] };
+    // C05: 0, 1, 2 or 3 attached policies of mixed kinds (the other properties keep their one-policy stream)
+    let mut more = vec![];
+    if prop == "C05" {
+        let n = *rng.pick(&[0usize, 1, 1, 1, 2, 2, 2, 3, 3]);
+        if n == 0 {
+            pol = PolSpec::None;
+        }
+        for i in 1..n {
+            // the further policies accept most routes, so that chains still let traffic through; which position
+            // holds the strictest policy is random
+            let p = match rng.below(6) {
+                0 | 1 => PolSpec::Mask((rng.next() | rng.next()) as u32),
+                2 => PolSpec::Pattern("0*".into()),
+                3 => PolSpec::Acl("+".into()),
+                _ => {
+                    let r = rng.pick(&routes);
+                    match r.transit.last() {
+                        Some((asn, _, _)) => PolSpec::Acl(format!("- 1-{}, +", asn)),
+                        None => PolSpec::Acl(format!("- 1-{}#{}, +", SRC_ASN, r.e0)),
+                    }
+                }
+            };
+            more.push(p);
+            if rng.chance(1, 2) {
+                let j = rng.below(i as u64 + 1) as usize;
+                if j == 0 {
+                    std::mem::swap(&mut pol, &mut more[i - 1]);
+                } else {
+                    more.swap(j - 1, i - 1);
+                }
+            }
+        }
+        if matches!(pol, PolSpec::None) && !more.is_empty() {
+            pol = more.remove(0);
+        }
+    }
+    let mut h = Hist { kind: "random".into(), cfg, pol, more, routes, t0, ops: vec![] };
     if h.cfg.to_verif().validate().is_err() {
         return h;
     }
@@ -1166,7 +1395,7 @@ fn gen_history(rng: &mut Rng, prop: &str, max_ops: usize) -> Hist {
     let _g = rt.enter();
     let script = Arc::new(Mutex::new(Script { next: None, calls: 0, bad_pair: false }));
     // the dry instance carries the history's policy, so that its timers are the ones the real run will have
-    let dry_policies = build_policies(&h).unwrap_or_default();
+    let dry_policies = build_strategy(&h).map(|s| s.policies).unwrap_or_default();
     let vs = match catch(|| VerifPathSet::new(src_ia(), dst_ia(), h.cfg.to_verif(), ScriptFetcher(script.clone()), dry_policies, st(t0))) {
         Ok(v) => v,
         Err(_) => return h,
@@ -1264,6 +1493,62 @@ fn gen_history(rng: &mut Rng, prop: &str, max_ops: usize) -> Hist {
     h
 }
 
+/// C07 stream "report, report again later, then fetch": a failure on an interface of route `a` is reported once or
+/// several times (inside / outside the deduplication window, seconds to half an hour apart), and a fetch before,
+/// between or after the reports brings in route `a` together with other routes.
+fn gen_rereport(rng: &mut Rng) -> Hist {
+    let routes = gen_routes(rng);
+    let mut cfg = base_cfg();
+    cfg.refetch_interval_ms = *rng.pick(&[10_000u64, 10_000, 100_000]);
+    cfg.threshold = *rng.pick(&[0.5f32, 0.5, 0.3, 0.1]);
+    cfg.dedup_ms = *rng.pick(&[10_000u64, 10_000, 10_000, 0]);
+    cfg.max_cached = *rng.pick(&[5usize, 5, 50, 2]);
+    let t0 = 1_000_000 * NS;
+    let far = 1_000_000 + 20_000;
+    let a = rng.below(routes.len() as u64) as usize;
+    let ra = routes[a].clone();
+    let first_hop = rng.chance(1, 4);
+    let k = if first_hop || ra.transit.is_empty() {
+        if rng.chance(1, 2) { KindSpec::Fhu(1, SRC_ASN, ra.e0) } else { KindSpec::Xid(1, SRC_ASN, ra.e0, 0) }
+    } else {
+        let (asn, i, o) = ra.transit[rng.below(ra.transit.len() as u64) as usize];
+        if rng.chance(1, 2) { KindSpec::Xid(1, asn as u64, o, rng.below(2) as u8) } else { KindSpec::Icd(1, asn as u64, i, o, rng.below(2) as u8) }
+    };
+    let subset = |rng: &mut Rng, with_a: bool| -> Vec<PSpec> {
+        let mut v: Vec<PSpec> = (0..routes.len()).filter(|i| *i != a && rng.chance(2, 3)).map(|i| PSpec { route: i, expiry: far, meta: 0 }).collect();
+        if with_a {
+            v.push(PSpec { route: a, expiry: far, meta: 0 });
+        }
+        rng.shuffle(&mut v);
+        v
+    };
+    let mut ops = vec![];
+    let mut cur = t0;
+    if rng.chance(1, 2) {
+        // the pair is already in use; route `a` is known or not
+        let with_a = rng.chance(1, 3);
+        ops.push(OpSpec::Maintain { now: cur, resp: RespSpec::Ok(subset(rng, with_a)) });
+        ops.push(OpSpec::Send { now: cur });
+    }
+    let n_rep = rng.range(1, 4);
+    for _ in 0..n_rep {
+        cur += *rng.pick(&[1u64, 5, 9, 10, 11, 40, 120, 300, 300, 900, 1800]) * NS;
+        ops.push(OpSpec::Report { kind: k.clone(), ts: cur });
+        if rng.chance(1, 2) {
+            ops.push(OpSpec::Deliver { now: cur });
+        }
+        if rng.chance(1, 4) {
+            cur += *rng.pick(&[0u64, 1, 12]) * NS;
+            let with_a = rng.chance(1, 2);
+            ops.push(OpSpec::Maintain { now: cur, resp: RespSpec::Ok(subset(rng, with_a)) });
+        }
+    }
+    cur += *rng.pick(&[0u64, 1, 5, 12, 30, 120]) * NS;
+    ops.push(OpSpec::Maintain { now: cur, resp: RespSpec::Ok(subset(rng, true)) });
+    ops.push(OpSpec::Send { now: cur + NS });
+    Hist { kind: "rereport".into(), cfg, pol: PolSpec::None, more: vec![], routes, t0, ops }
+}
+
 // ---- deterministic probes (each known finding / fixed defect is replayed on every run) -------------
 
 fn base_cfg() -> CfgSpec {
@@ -1301,6 +1586,7 @@ fn probes(prop: &str) -> Vec<Hist> {
             kind: "probe-expired-active".into(),
             cfg: c,
             pol: PolSpec::None,
+            more: vec![],
             routes: two_routes(),
             t0,
             ops: vec![
@@ -1321,6 +1607,7 @@ fn probes(prop: &str) -> Vec<Hist> {
             kind: "probe-issue-fifo".into(),
             cfg: c,
             pol: PolSpec::None,
+            more: vec![],
             routes: two_routes(),
             t0,
             ops: vec![
@@ -1346,6 +1633,7 @@ fn probes(prop: &str) -> Vec<Hist> {
             kind: "probe-active-expires-between-ticks".into(),
             cfg: c,
             pol: PolSpec::None,
+            more: vec![],
             routes: rs,
             t0,
             ops: vec![
@@ -1365,6 +1653,7 @@ fn probes(prop: &str) -> Vec<Hist> {
             kind: "probe-only-near-expiry-paths".into(),
             cfg: base_cfg(),
             pol: PolSpec::None,
+            more: vec![],
             routes: two_routes(),
             t0,
             ops: vec![
@@ -1379,6 +1668,7 @@ fn probes(prop: &str) -> Vec<Hist> {
             kind: "probe-max-cached-zero".into(),
             cfg: c,
             pol: PolSpec::None,
+            more: vec![],
             routes: two_routes(),
             t0,
             ops: vec![OpSpec::Maintain { now: s(0), resp: RespSpec::Ok(vec![PSpec { route: 0, expiry: far, meta: 0 }]) }, OpSpec::Send { now: s(1) }],
@@ -1388,6 +1678,7 @@ fn probes(prop: &str) -> Vec<Hist> {
             kind: "probe-only-expired-paths".into(),
             cfg: base_cfg(),
             pol: PolSpec::None,
+            more: vec![],
             routes: two_routes(),
             t0,
             ops: vec![
@@ -1403,6 +1694,7 @@ fn probes(prop: &str) -> Vec<Hist> {
             kind: "probe-alternative-penalised".into(),
             cfg: base_cfg(),
             pol: PolSpec::None,
+            more: vec![],
             routes: two_routes(),
             t0,
             ops: vec![
@@ -1427,6 +1719,7 @@ fn probes(prop: &str) -> Vec<Hist> {
                     kind: format!("probe-failover-{pos}-{el}s"),
                     cfg: c,
                     pol: PolSpec::None,
+                    more: vec![],
                     routes: two_routes(),
                     t0,
                     ops: vec![
@@ -1451,6 +1744,7 @@ fn probes(prop: &str) -> Vec<Hist> {
             kind: "probe-first-hop-default-config".into(),
             cfg: c,
             pol: PolSpec::None,
+            more: vec![],
             routes: two_routes(),
             t0,
             ops: vec![
@@ -1469,6 +1763,7 @@ fn probes(prop: &str) -> Vec<Hist> {
             kind: "probe-burst-unrelated-first".into(),
             cfg: base_cfg(),
             pol: PolSpec::None,
+            more: vec![],
             routes: rs,
             t0,
             ops: vec![
@@ -1480,6 +1775,68 @@ fn probes(prop: &str) -> Vec<Hist> {
                 OpSpec::Send { now: s(2) },
             ],
         });
+        // a failure that is reported again after the deduplication window is fresh again: a path over the failed
+        // interface that is fetched after the re-report must come in penalised, whatever the age of the first report.
+        // Route 0 (3 hop fields, via 1-301) is one hop field shorter than the clean route 3 (via 1-302 and 1-304).
+        let mut rs = two_routes();
+        rs.push(Route { e0: 2, transit: vec![(0x302, 2, 5), (0x304, 2, 4)], last_in: 2 });
+        for (pos, k0) in [("first-hop", KindSpec::Fhu(1, SRC_ASN, 1)), ("transit", KindSpec::Xid(1, 0x301, 4, 0)), ("transit-pair", KindSpec::Icd(1, 0x301, 1, 4, 0))] {
+            // one report, long decayed when the pair is first fetched: the shorter path over the interface is eligible again
+            v.push(Hist {
+                kind: format!("probe-report-{pos}-decayed-then-first-fetch"),
+                cfg: base_cfg(),
+                pol: PolSpec::None,
+                more: vec![],
+                routes: rs.clone(),
+                t0,
+                ops: vec![
+                    OpSpec::Report { kind: k0.clone(), ts: s(0) },
+                    OpSpec::Maintain { now: s(900), resp: RespSpec::Ok(vec![PSpec { route: 0, expiry: far, meta: 0 }, PSpec { route: 3, expiry: far, meta: 0 }]) },
+                    OpSpec::Send { now: s(901) },
+                ],
+            });
+            for (first, gap) in [(0u64, 300u64), (0, 11), (0, 1800), (250, 50)] {
+                let mut c = base_cfg();
+                c.refetch_interval_ms = 10_000;
+                let second = first + gap;
+                // first fetch of the pair after the re-report: the first activation must pick the clean path
+                v.push(Hist {
+                    kind: format!("probe-rereport-{pos}-{gap}s-then-first-fetch"),
+                    cfg: c.clone(),
+                    pol: PolSpec::None,
+                    more: vec![],
+                    routes: rs.clone(),
+                    t0,
+                    ops: vec![
+                        OpSpec::Report { kind: k0.clone(), ts: s(first) },
+                        OpSpec::Report { kind: k0.clone(), ts: s(second) },
+                        OpSpec::Maintain { now: s(second + 5), resp: RespSpec::Ok(vec![PSpec { route: 0, expiry: far, meta: 0 }, PSpec { route: 3, expiry: far, meta: 0 }]) },
+                        OpSpec::Send { now: s(second + 6) },
+                    ],
+                });
+                // a running flow on route 1 whose path is about to expire: the refetch after the re-report offers the
+                // path over the failed interface and the clean, longer one
+                let exp1 = 1_000_000 + (second + 8) as u32;
+                v.push(Hist {
+                    kind: format!("probe-rereport-{pos}-{gap}s-running-flow"),
+                    cfg: c,
+                    pol: PolSpec::None,
+                    more: vec![],
+                    routes: rs.clone(),
+                    t0,
+                    ops: vec![
+                        OpSpec::Maintain { now: s(0), resp: RespSpec::Ok(vec![PSpec { route: 1, expiry: exp1, meta: 0 }]) },
+                        OpSpec::Send { now: s(0) },
+                        OpSpec::Report { kind: k0.clone(), ts: s(first) },
+                        OpSpec::Deliver { now: s(first) },
+                        OpSpec::Report { kind: k0.clone(), ts: s(second) },
+                        OpSpec::Deliver { now: s(second) },
+                        OpSpec::Maintain { now: s(second + 5), resp: RespSpec::Ok(vec![PSpec { route: 0, expiry: far, meta: 0 }, PSpec { route: 3, expiry: far, meta: 0 }]) },
+                        OpSpec::Send { now: s(second + 6) },
+                    ],
+                });
+            }
+        }
         // the same through the socket: UdpScionSocket::send_to -> report_send_error -> worker -> next send_to
         v.push(wiring_hist("wiring-default-config", default_cfg(), two_routes(), vec![0, 1]));
         let mut c = default_cfg();
@@ -1493,6 +1850,7 @@ fn probes(prop: &str) -> Vec<Hist> {
             kind: "probe-policy-admits-nothing".into(),
             cfg: base_cfg(),
             pol: PolSpec::Mask(0),
+            more: vec![],
             routes: two_routes(),
             t0,
             ops: vec![
@@ -1510,6 +1868,7 @@ fn probes(prop: &str) -> Vec<Hist> {
                 kind: "probe-refetch-loses-metadata".into(),
                 cfg: c.clone(),
                 pol,
+                more: vec![],
                 routes: two_routes(),
                 t0,
                 ops: vec![
@@ -1520,11 +1879,51 @@ fn probes(prop: &str) -> Vec<Hist> {
                 ],
             });
         }
+        // several attached policies: every one of them binds, whatever its position in the list.  Route 0 transits
+        // 1-301, route 1 transits 1-302, route 2 transits 1-303 and 1-304; the rejecting policy is tried first,
+        // in the middle and last, the other ones accept everything offered
+        let deny301 = PolSpec::Acl(format!("- 1-{}, +", 0x301));
+        let any = || vec![PolSpec::Acl("+".into()), PolSpec::Pattern("0*".into()), PolSpec::Mask(0xffff_ffff)];
+        let mut chains: Vec<(String, Vec<PolSpec>)> = vec![];
+        for n in 2..=3usize {
+            for pos in 0..n {
+                let mut c: Vec<PolSpec> = any().into_iter().take(n).collect();
+                c[pos] = deny301.clone();
+                chains.push((format!("probe-policy-chain-{n}-reject-at-{}", pos + 1), c));
+            }
+        }
+        chains.push(("probe-policy-chain-mask-then-pattern".into(), vec![PolSpec::Mask(0b110), PolSpec::Pattern("0*".into())]));
+        chains.push(("probe-policy-chain-pattern-then-acl".into(), vec![PolSpec::Pattern(format!("0* 1-{} 0*", 0x302)), PolSpec::Acl(format!("- 1-{}, +", 0x303)), PolSpec::Mask(0b111)]));
+        for (kind, chain) in chains {
+            for only_rejected in [false, true] {
+                // `only_rejected`: the lookup returns nothing but the path the chain rejects - the caller must get an error
+                let answer = if only_rejected { vec![PSpec { route: 0, expiry: far, meta: 0 }] } else { vec![PSpec { route: 0, expiry: far, meta: 0 }, PSpec { route: 1, expiry: far, meta: 0 }, PSpec { route: 2, expiry: far, meta: 0 }] };
+                v.push(Hist {
+                    kind: format!("{kind}{}", if only_rejected { "-only-rejected" } else { "" }),
+                    cfg: base_cfg(),
+                    pol: chain[0].clone(),
+                    more: chain[1..].to_vec(),
+                    routes: two_routes(),
+                    t0,
+                    ops: vec![
+                        OpSpec::Maintain { now: s(0), resp: RespSpec::Ok(answer.clone()) },
+                        OpSpec::Send { now: s(1) },
+                        // the shortest allowed path fails: the switch must stay inside the allowed set
+                        OpSpec::Report { kind: KindSpec::Xid(1, 0x302, 5, 0), ts: s(2) },
+                        OpSpec::Deliver { now: s(2) },
+                        OpSpec::Send { now: s(2) },
+                        OpSpec::Maintain { now: s(100), resp: RespSpec::Ok(answer) },
+                        OpSpec::Send { now: s(101) },
+                    ],
+                });
+            }
+        }
         // hop policy and paths without metadata
         v.push(Hist {
             kind: "probe-no-metadata".into(),
             cfg: base_cfg(),
             pol: PolSpec::Acl("+".into()),
+            more: vec![],
             routes: two_routes(),
             t0,
             ops: vec![
@@ -1577,7 +1976,7 @@ fn match_cases(rng: &mut Rng, lean: &mut Lean, rep: &mut Report, n: usize) {
             KindSpec::Fhu(isd, asn, e) => format!("fh {} {}", IsdAsn::new(Isd(*isd), Asn(*asn)).to_u64(), e),
             KindSpec::Ptb => unreachable!(),
         };
-        let tok = path_token(&p, true);
+        let tok = path_token(&p, &[]);
         let mo = lean.ask(&format!("matches {tgt} {tok}"));
         let io = if real { "true" } else { "false" };
         rep.case(&format!("match|{tgt}|{tok}"), real);
@@ -1717,7 +2116,7 @@ fn run_wiring(h: &Hist) -> Outcome {
 }
 
 fn wiring_hist(kind: &str, cfg: CfgSpec, routes: Vec<Route>, answer: Vec<usize>) -> Hist {
-    Hist { kind: kind.into(), cfg, pol: PolSpec::None, routes, t0: 0, ops: vec![OpSpec::Maintain { now: 0, resp: RespSpec::Ok(answer.into_iter().map(|r| PSpec { route: r, expiry: 0, meta: 0 }).collect()) }] }
+    Hist { kind: kind.into(), cfg, pol: PolSpec::None, more: vec![], routes, t0: 0, ops: vec![OpSpec::Maintain { now: 0, resp: RespSpec::Ok(answer.into_iter().map(|r| PSpec { route: r, expiry: 0, meta: 0 }).collect()) }] }
 }
 
 /// production default configuration
@@ -1810,6 +2209,10 @@ fn main() {
             hists.push(gen_history(&mut rng, &prop, m));
         }
         if prop == "C07" {
+            let mut rr = rng.fork();
+            for _ in 0..args.scale(120, 2000) {
+                hists.push(gen_rereport(&mut rr));
+            }
             let mut wr = rng.fork();
             for _ in 0..args.scale(10, 60) {
                 hists.push(gen_wiring(&mut wr));
@@ -1822,12 +2225,20 @@ fn main() {
         rep.case(&line, o.nontrivial);
         rep.traces += 1;
         rep.hit(&format!("history {}", if h.kind.starts_with("probe") { "probe" } else if h.kind.starts_with("wiring") { "socket wiring" } else { &h.kind }));
-        rep.hit(&format!("policy {}", match &h.pol { PolSpec::None => "none", PolSpec::Mask(_) => "mask", PolSpec::Acl(_) => "acl", PolSpec::Pattern(_) => "hop-pattern" }));
+        let att = attached(h);
+        rep.hit(&format!("policies attached {}", att.len()));
+        if att.is_empty() {
+            rep.hit("policy none");
+        }
+        for p in &att {
+            rep.hit(&format!("policy {}", match p { PolSpec::None => "none", PolSpec::Mask(_) => "mask", PolSpec::Acl(_) => "acl", PolSpec::Pattern(_) => "hop-pattern" }));
+        }
         rep.hit_n("ops", o.ops_run as u64);
         rep.hit_n("fetches executed", o.fetches);
         rep.hit_n("paths handed out", o.handouts);
         rep.hit_n("active path switches", o.swaps);
         rep.hit_n("steer-away checks", o.steer_checked);
+        rep.hit_n("no-return checks (a path became active)", o.return_checked);
         for l in &o.labels {
             rep.hit(&format!("op {l}"));
         }
